@@ -2,6 +2,7 @@ package binary
 
 import (
 	"bytes"
+	"io"
 
 	"github.com/tetratelabs/wazero/internal/wasm"
 )
@@ -16,7 +17,9 @@ func decodeCustomSection(r *bytes.Reader, name string, limit uint64) (result *wa
 	}
 
 	buf := make([]byte, limit)
-	_, err = r.Read(buf)
+	// Not r.Read: at the end of the input it reports io.EOF even for an empty buffer, which made a module
+	// whose last section is a custom section without payload fail to decode.
+	_, err = io.ReadFull(r, buf)
 
 	result = &wasm.CustomSection{
 		Name: name,
